@@ -206,19 +206,25 @@ structure DSt where
   lower : Bool
   k : KSt
   aw : Option (List Field) := none
+  /-- `iconfig ns`: the interceptor is the idempotent prefix `ns/` instead of lower-casing -/
+  ns : Bool := false
 
-def DSt.init : DSt := ⟨false, KSt.init, none⟩
+def DSt.init : DSt := ⟨false, KSt.init, none, false⟩
 
 /-- `strings.ToLower` on the ids the harness uses (ASCII) -/
 def lowerId (s : String) : String := s.toLower
 
+/-- an idempotent namespace prefix: it maps the empty id to the key `ns/` -/
+def nsId (s : String) : String := if s.startsWith "ns/" then s else "ns/" ++ s
+
 def handleD (d : DSt) (toks : List String) : DSt × String :=
   match toks with
-  | ["iconfig", "lower", a, rs] =>
+  | ["iconfig", name, a, rs] =>
     match parseMode? a, (if rs = "-" then some [] else (rs.splitOn ";").mapM parseRec?) with
     | some a, some rs =>
-      match KSt.iconfig? lowerId rs a with
-      | some k0 => (⟨true, k0, none⟩, "ok " ++ showSt k0.abs)
+      if name != "lower" && name != "ns" then (d, "!bad-op") else
+      match KSt.iconfig? (if name = "ns" then nsId else lowerId) rs a with
+      | some k0 => (⟨true, k0, none, name = "ns"⟩, "ok " ++ showSt k0.abs)
       | none => (DSt.init, "panic")
     | _, _ => (d, "!bad-op")
   | ["awconfig", w, a, ms] =>
@@ -227,7 +233,7 @@ def handleD (d : DSt) (toks : List String) : DSt × String :=
     match parseMask? w, parseMode? a, (if ms = "-" then some [] else (ms.splitOn ";").mapM parseMode?) with
     | some (some mask), some a, some ms =>
       match St.config? ms a with
-      | some s0 => (⟨false, KSt.ofSt s0, some mask.paths⟩, "ok " ++ showSt s0)
+      | some s0 => (⟨false, KSt.ofSt s0, some mask.paths, false⟩, "ok " ++ showSt s0)
       | none => (DSt.init, "panic")
     | _, _, _ => (d, "!bad-op")
   | _ =>
@@ -238,20 +244,21 @@ def handleD (d : DSt) (toks : List String) : DSt × String :=
       | _ => false
     if fresh || (!d.lower && d.aw.isNone) then
       let (k', s) := handleS d.k toks
-      if s = "!bad-op" then (d, s) else (⟨d.lower && !fresh, k', if fresh then none else d.aw⟩, s)
+      if s = "!bad-op" then (d, s) else (⟨d.lower && !fresh, k', if fresh then none else d.aw, d.ns && !fresh⟩, s)
     else if d.lower then
       match parseOp? toks with
       | some op =>
-        let (k', r) := ikstep lowerId d.k op
-        let evs := s!" events=[{";".intercalate ((ikmodeEvents lowerId d.k op).map showEvent)}] active-events=[{";".intercalate ((ikactiveEvents lowerId d.k op).map showMode)}]"
-        (⟨true, k', none⟩, showRes r ++ " " ++ showSt k'.abs ++ evs)
+        let c := if d.ns then nsId else lowerId
+        let (k', r) := ikstep c d.k op
+        let evs := s!" events=[{";".intercalate ((ikmodeEvents c d.k op).map showEvent)}] active-events=[{";".intercalate ((ikactiveEvents c d.k op).map showMode)}]"
+        (⟨true, k', none, d.ns⟩, showRes r ++ " " ++ showSt k'.abs ++ evs)
       | none => (d, "!bad-op")
     else
       match parseOp? toks with
       | some op =>
         let (k', r) := wstep d.aw d.k op
         let evs := s!" events=[{";".intercalate ((kmodeEvents d.k op).map showEvent)}] active-events=[{";".intercalate ((wactiveEvents d.aw d.k op).map showMode)}]"
-        (⟨false, k', d.aw⟩, showRes r ++ " " ++ showSt k'.abs ++ evs)
+        (⟨false, k', d.aw, false⟩, showRes r ++ " " ++ showSt k'.abs ++ evs)
       | none => (d, "!bad-op")
 
 end ScVerif.C19
